@@ -112,7 +112,8 @@ def run_tasks(names, src, tier):
     timeout = 10000 if tier == "quick" else 60000
     jobs = [(n, src, timeout) for n in names]
     ctxm = mp.get_context("fork")
-    with ctxm.Pool(min(16, max(1, len(jobs)))) as pool:
+    cap = int(os.environ.get("VERIF_WORKERS", "16") or 16)          # several checks side by side (selftest lanes) share the cores
+    with ctxm.Pool(max(1, min(16, cap, len(jobs)))) as pool:
         return pool.map(_worker, jobs, chunksize=1)
 
 
